@@ -51,7 +51,7 @@ def histories(chk, tier):
         chk.cov["traces_validated_against_impl"] += s["cases"]
         for x in s["samples"][:1]:
             chk.sample({"history": x})
-        if name == "windows" and (s["kept_estimated_value"] == 0 or s["windows_installed"] == 0):
+        if name == "windows" and not s["failures"] and (s["kept_estimated_value"] == 0 or s["windows_installed"] == 0):
             raise C.ToolError("vacuous: no history kept an estimated value / installed an estimate")
         for f in s["first_failures"]:
             chk.violation(f["key"], "mass-matrix history: " + f["mismatch"][:1500], f)
@@ -61,11 +61,11 @@ def gaussians(chk, tier):
     cfg = os.path.join(C.WORK, "c08_gauss.cfg")
     full = tier != "quick"
     with open(cfg, "w") as f:
-        f.write("CONSTANTS\n  Dims = %s\n  Sizes = %s\n  Exps <- %s\n  Mus <- %s\n  Patterns <- %s\n  LowRankDims = %s\n  Ranks = {0, 1, 2}\n"
+        f.write("CONSTANTS\n  Dims = %s\n  Sizes = %s\n  Exps <- %s\n  Mus <- %s\n  Patterns <- %s\n  LowRankDims = %s\n  Ranks = {0, 1, 2}\n  Splits = %s\n"
                 "SPECIFICATION Spec\nCHECK_DEADLOCK FALSE\n" %
                 ("{1, 2, 3, 5, 17, 50}" if full else "{1, 2, 3, 5, 50}", "{3, 4, 7, 20}" if full else "{3, 4, 7}",
                  "ExpsFull" if full else "ExpsQuick", "MusFull" if full else "MusQuick", "PatsFull" if full else "PatsQuick",
-                 "{2, 3, 6, 12, 50}" if full else "{2, 3, 6, 20}"))
+                 "{2, 3, 6, 12, 50}" if full else "{2, 3, 6, 20}", "{0, 1, 2, 3}" if full else "{0, 2}"))
     r = C.tlc("MC_MassMatrixGauss.tla", cfg, "c08_gauss", timeout=3000, workers=1)
     C.require_tlc_ok(r, "MassMatrixGauss")
     lines = C.replay_lines(r["out"])
